@@ -35,7 +35,7 @@ class P(Profile):
     stopwaitsecs = (1, 7, 12)
     startsecs = (0, 1)
     fault_ops = ('crash',)     # quantifier: loss of an instance during the ending phase (no boot after warm-up)
-    proc_ops = ()      # no external start while Supvisors stops things (a copy started after the plan is not sequenced)
+    proc_ops = ('exit',)      # (crashes of children; still no external start while Supvisors stops things (a copy started after the plan is not sequenced)
     user_ops = ('rpc_stop', 'rpc_stop', 'rpc_stop_proc', 'rpc_end', 'rpc_stop', 'rpc_stop_proc', 'rpc_end')
     starting = ('CONFIG', 'LESS_LOADED', 'MOST_LOADED', 'LOCAL')
     op_rate = 0.3
